@@ -126,6 +126,7 @@ Theorem C16_object_changes_only_by_a_configured_function : forall c ops, hist_ok
 Proof. exact object_changes_only_by_function. Qed.
 Print Assumptions C16_object_changes_only_by_a_configured_function.
 
+From WF Require Import proofs.EngineInv.
 (* "its version starts at 1 and grows by exactly 1 per write", read off the history of committed writes: the j-th committed write
    of a run (counting from 0, whatever other runs' writes lie in between) carries version j + 1 *)
 Theorem C16_version_counts_the_writes : forall c ops, hist_ok ops ->
